@@ -24,7 +24,13 @@ Import ListNotations.
 (* which protocols (ranks) registered a push updater / a keyboard instance *)
 (* sraise: protocols whose push updater's stop() raises (fault while tearing the protocol down) *)
 (* aregs: protocols that registered an Audio instance *)
-Record cfg := { regs : list nat; kregs : list nat; sraise : list nat; aregs : list nat }.
+(* lfault: the notifications (numbered over all user listeners) at which the user's listener
+   raises after having been called.  It is an input of a run that NO definition below looks at:
+   the facade stores the new value before it calls the listener, and a listener that raises
+   only aborts that one call-back (the loop contains the exception) - see
+   C10_listener_faults_do_not_matter. *)
+Record cfg := { regs : list nat; kregs : list nat; sraise : list nat; aregs : list nat;
+                lfault : list nat }.
 
 Inductive qitem :=
   | QPlay (p s : nat)      (* FacadePushUpdater.playstatus_update(updater p, s) *)
